@@ -301,13 +301,22 @@ def compare_case(ctx, rep, key, data, members, chain, raw_mode, tmp, what, passw
         disagree("graph after re-opening: implementation %s, model %s" % (r1[0], mr[0]),
                  {"model": repr(mr[1])[:3000], "impl": repr(r1[1])[:3000]})
         return None
-    # ---- what the format lets an entry carry and the session does not write back (AppendProofs.v *_refuted)
+    # ---- creation / access times of earlier entries survive (AppendProofs.v append_then_reopen_times; regression test of
+    #      the repaired finding C08-append-drops-ctime-atime), and the session's own entries carry none
     if r1[0] == "ok" and g_open[1] and r1[1][1]:
         old_files, new_files = g_open[1][0], r1[1][1][0]
-        lost = [i for i, (a, b) in enumerate(zip(old_files, new_files))
-                if (a[2] not in ([], [[]]) and b[2] != a[2]) or (a[3] not in ([], [[]]) and b[3] != a[3])]
+        flat = lambda x: None if x in ([], [[]]) else x[0][0]  # noqa: E731
+        lost = [i for i, (a, b) in enumerate(zip(old_files, new_files)) if (flat(a[2]), flat(a[3])) != (flat(b[2]), flat(b[3]))]
+        if any(flat(a[2]) is not None or flat(a[3]) is not None for a in old_files):
+            rep.dist("model_times", "base entries with creation/access time re-read after the session")
+        extra_t = [i for i, b in enumerate(new_files[len(old_files):]) if flat(b[2]) is not None or flat(b[3]) is not None]
+        if extra_t:
+            rep.violation("the entries a session adds carry a creation/access time (%d of %d) [%s; features %s]" % (
+                len(extra_t), len(new_files) - len(old_files), what, feats),
+                {"kind": "append-new-times", "base": data.hex()[:100000], "members": [[k, n, d.hex()] for k, n, d in members],
+                 "chain": chain, "raw": raw_mode}, match_keys={"kind": "append-new-times"})
         if lost:
-            rep.violation("append drops the creation/access times of %d earlier member(s) (FilesInfo.write never writes them) "
+            rep.violation("append drops or changes the creation/access times of %d earlier member(s) (FilesInfo.write must write them back) "
                           "[%s; features %s]" % (len(lost), what, feats),
                           {"kind": "append-drops-times", "base": data.hex()[:100000], "members": [[k, n, d.hex()] for k, n, d in members],
                            "chain": chain, "raw": raw_mode},
